@@ -200,8 +200,11 @@ func main() {
 		{`if IsPathExcludedFromPatterns(tested, fs.PathSeparator(), exclusionPatterns...) { return }`, "ExclTested"},
 		{`if IsPathExcludedFromPatterns(dir, fs.PathSeparator(), exclusionPatterns...) { return }`, "ExclDir"},
 		{`err = ConvertFileSystemError(fs.vfs.Remove(dir))`, "RemoveDir"},
+		{`dir = filepath.Clean(dir)`, "CleanPath"},
+		{`dir = strings.TrimRight(dir, string(fs.PathSeparator()))`, "TrimPath"},
 	}, common...), [][2]string{
 		{`info, subErr := fs.Lstat(dir); subErr == nil && IsSymLink(info)`, "Link"},
+		{`info, subErr := fs.Lstat(filepath.Clean(dir)); subErr == nil && IsSymLink(info)`, "LinkOnCleanOnly"},
 		{`info, subErr := fs.Stat(dir); subErr == nil && IsSymLink(info)`, "LinkByStat"},
 		{`info, subErr := fs.Lstat(tested); subErr == nil && IsSymLink(info)`, "LinkOnTested"},
 	})
@@ -223,6 +226,8 @@ func main() {
 		return "TNone"
 	}
 	rmLinkFirst := has(rm, "Link{") && before(rm, "Link{", "ExistsRet") && before(rm, "Link{", "IsDir") && before(rm, "Link{", "IsEmpty1") && before(rm, "Link{", "RemoveDir")
+	// the path is cleaned after the empty-path test (Clean("") is ".") and before anything looks at it
+	rmCleaned := has(rm, "CleanPath") && before(rm, "EmptyRet", "CleanPath") && before(rm, "CleanPath", "Link{") && before(rm, "CleanPath", "ExistsRet") && before(rm, "CleanPath", "RemoveDir")
 	rmLinkCtx := follows(link, "Ctx", "RetErr") && before(link, "Ctx", "RemoveDir")
 	rmLinkExcl := exclArg(link, "RemoveDir")
 	rmLinkReturns := len(link) >= 2 && link[len(link)-2] == "RemoveDir" && link[len(link)-1] == "Ret"
@@ -310,8 +315,10 @@ func main() {
 		{`subErr = fs.ChangeOwnership(dir, currentUser)`, "Chown"},
 		{`subErr = fs.ChangeOwnershipRecursively(ctx, dir, currentUser)`, "ChownRec"},
 		{`err = ConvertFileSystemError(correctobj.ForceRemoveIfPossible(dir))`, "Force"},
+		{`dir = filepath.Clean(dir)`, "CleanPath"},
 		{`return`, "Ret"},
 	}, [][2]string{
+		{`dir != ""`, "NonEmpty"},
 		{`commonerrors.Any(err, nil, commonerrors.ErrTimeout, commonerrors.ErrCancelled)`, "Final"},
 		{`info, lErr := fs.Lstat(dir); lErr != nil || !IsSymLink(info)`, "Guard"},
 		{`subErr == nil`, "IfChowned"},
@@ -328,6 +335,8 @@ func main() {
 			depth++
 		case strings.HasPrefix(t, "}"):
 			depth--
+		case t == "CleanPath" && depth == 0:
+			die("RemoveWithPrivileges: the path is cleaned without the empty-path guard (Clean(\"\") is \".\")")
 		case (t == "Chown" || t == "ChownRec") && depth == 0:
 			chownOutside = true
 		}
@@ -335,6 +344,8 @@ func main() {
 	if !has(pv, "Chown") && !has(pv, "ChownRec") || !has(pv, "Force") || !follows(pv, "Pass", "Final{") {
 		die("RemoveWithPrivileges: ownership change / forced removal / first attempt missing: %v", pv)
 	}
+	ne := sub(pv, "NonEmpty")
+	pvCleaned := len(ne) == 1 && ne[0] == "CleanPath" && before(pv, "}NonEmpty", "Pass")
 	pvGuard := chownGuarded && !chownOutside
 	pvRec := has(pv, "ChownRec")
 
@@ -374,10 +385,10 @@ func main() {
 	var o strings.Builder
 	o.WriteString("(* GENERATED by translator-c04/cmd/rmfacts2coq from utils/filesystem/files.go and utils/platform/deletion*.go of the\n   repository's working tree — DO NOT EDIT; regenerated on every run of ./check C04. *)\nFrom GU Require Import C04.Facts.\n\n")
 	fmt.Fprintf(&o, "(* removeWithExclusionPatterns: %s\n   CleanDirWithContextAndExclusionPatterns: %s\n   removeFileWithContext: %s *)\n", strings.Join(rm, " "), strings.Join(cl, " "), strings.Join(nf, " "))
-	fmt.Fprintf(&o, "Definition rm : rm_facts := mkRm %s %s %s %s %s %s %s %s %s %s %s %s %s %s.\n\n", b(rmLinkFirst), b(rmLinkCtx), rmLinkExcl, b(rmLinkReturns),
-		b(rmCleanErrFirst), b(rmCleanPatterns), b(rmStop), b(rmFinalCtx), rmFinalExcl, b(clLs), b(clStop), b(clPat), nested, b(nestedPat))
+	fmt.Fprintf(&o, "Definition rm : rm_facts := mkRm %s %s %s %s %s %s %s %s %s %s %s %s %s %s %s.\n\n", b(rmLinkFirst), b(rmLinkCtx), rmLinkExcl, b(rmLinkReturns),
+		b(rmCleanErrFirst), b(rmCleanPatterns), b(rmStop), b(rmFinalCtx), rmFinalExcl, b(clLs), b(clStop), b(clPat), nested, b(nestedPat), b(rmCleaned))
 	fmt.Fprintf(&o, "(* garbageCollect: %s *)\nDefinition gc : gc_facts := mkGc %s %s.\n\n", strings.Join(g, " "), b(gcLinkFirst), b(gcExistsFirst))
-	fmt.Fprintf(&o, "(* VFS.RemoveWithPrivileges: %s *)\nDefinition priv : priv_facts := mkPriv %s %s %s %s.\n", strings.Join(pv, " "), b(pvGuard), b(pvRec), b(forcePath), b(resolves))
+	fmt.Fprintf(&o, "(* VFS.RemoveWithPrivileges: %s *)\nDefinition priv : priv_facts := mkPriv %s %s %s %s %s.\n", strings.Join(pv, " "), b(pvGuard), b(pvRec), b(forcePath), b(resolves), b(pvCleaned))
 	old, _ := os.ReadFile(out)
 	if string(old) != o.String() {
 		if err := os.WriteFile(out, []byte(o.String()), 0o644); err != nil {
